@@ -1,6 +1,7 @@
 package rules
 
 import (
+	"fmt"
 	"go/ast"
 	"go/constant"
 	"go/token"
@@ -357,86 +358,125 @@ func c02WrappedCommit(r *core.Run, w *core.World, sp *flow.Spec, fn *core.FuncIn
 }
 
 // c02StatusTable: the boolean handed to the report function selects PhaseoneDone / PhaseoneFailed.
+// The report function (bool parameter, builds a BranchReportParam, reaches BranchReport) is analysed twice, from
+// the entry facts flag=true and flag=false: at every BranchReport call the Status last put into the request on
+// that path is PhaseoneDone resp. PhaseoneFailed — whether it comes from a mapping helper, from a literal that a
+// conditional assignment overrides, or from an if/else.
 func c02StatusTable(r *core.Run, a *atWorld) {
 	w := r.W
-	found := false
 	for _, f := range w.SortedFuncs() {
-		if f.Pkg.PkgPath != pDSSQL || w.IsTestFile(f.Decl.Pos()) {
+		if f.Pkg.PkgPath != pDSSQL || w.IsTestFile(f.Decl.Pos()) || f.Decl.Body == nil || !a.rep.Hits(f.Obj) {
 			continue
 		}
-		sig := f.Obj.Type().(*types.Signature)
-		if sig.Params().Len() != 1 || sig.Results().Len() != 1 {
-			continue
-		}
-		if b, ok := sig.Params().At(0).Type().Underlying().(*types.Basic); !ok || b.Kind() != types.Bool {
-			continue
-		}
-		if n, ok := sig.Results().At(0).Type().(*types.Named); !ok || n.Obj().Name() != "BranchStatus" {
-			continue
-		}
-		// must be used by a function reaching BranchReport
-		used := false
-		for _, cs := range w.Callers(f.Obj) {
-			if a.rep.Hits(cs.Caller.Obj) {
-				used = true
-				a.reportFns = append(a.reportFns, cs.Caller)
+		var flag types.Object
+		for _, p := range paramObjs(f) {
+			if b, ok := p.Type().Underlying().(*types.Basic); ok && b.Kind() == types.Bool {
+				flag = p
 			}
 		}
-		if !used {
-			continue
-		}
-		found = true
-		r.Fn(f)
-		param := paramObjs(f)[0]
-		res := (&flow.Spec{W: w}).Analyze(f)
-		for _, ex := range res.Exits {
-			r.Sites++
-			c := ex.ResultConst(f.Pkg.TypesInfo, 0)
-			switch {
-			case ex.St.IsTrue(param):
-				r.Check(c != nil && c.Name() == "BranchStatusPhaseoneDone", "C02.fail", core.ShortKey(f.Obj)+" success=true", w.Pos(ex.Pos), "true -> PhaseoneDone", "success=true must map to PhaseoneDone, got "+constName(c))
-			case ex.St.IsFalse(param):
-				r.Check(c != nil && c.Name() == "BranchStatusPhaseoneFailed", "C02.fail", core.ShortKey(f.Obj)+" success=false", w.Pos(ex.Pos), "false -> PhaseoneFailed", "success=false must map to PhaseoneFailed, got "+constName(c))
-			default:
-				r.Undecided("C02.fail", core.ShortKey(f.Obj)+" return without a fact on the flag", w.Pos(ex.Pos), "cannot relate the returned status to the success flag")
-			}
-		}
-	}
-	if !found {
-		r.Anchor("C02.fail", nil, "bool -> BranchStatus mapping used by the phase-one report")
-	}
-	// the report function forwards its flag into the mapping and the mapping's result into BranchReportParam.Status
-	for _, rf := range dedupFns(a.reportFns) {
-		r.Fn(rf)
-		info := rf.Pkg.TypesInfo
-		ps := paramObjs(rf)
-		okFlow := false
-		var statusVar types.Object
-		ast.Inspect(rf.Decl.Body, func(n ast.Node) bool {
-			switch x := n.(type) {
-			case *ast.AssignStmt:
-				if len(x.Lhs) == 1 && len(x.Rhs) == 1 {
-					if c, ok := x.Rhs[0].(*ast.CallExpr); ok && len(c.Args) == 1 && len(ps) == 1 && isObj(info, c.Args[0], ps[0]) {
-						if f := core.Callee(info, c); f != nil {
-							if rn, ok := f.Type().(*types.Signature).Results().At(0).Type().(*types.Named); ok && rn.Obj().Name() == "BranchStatus" {
-								statusVar = core.ObjOf(info, x.Lhs[0])
-							}
-						}
-					}
-				}
-			case *ast.KeyValueExpr:
-				if k, ok := x.Key.(*ast.Ident); ok && k.Name == "Status" {
-					if statusVar != nil && isObj(info, x.Value, statusVar) {
-						okFlow = true
-					}
-					if c, ok := x.Value.(*ast.CallExpr); ok && len(c.Args) == 1 && len(ps) == 1 && isObj(info, c.Args[0], ps[0]) {
-						okFlow = true
-					}
+		builds := false
+		ast.Inspect(f.Decl.Body, func(n ast.Node) bool {
+			if cl, ok := n.(*ast.CompositeLit); ok {
+				if t := f.Pkg.TypesInfo.TypeOf(cl); t != nil && strings.HasSuffix(t.String(), "BranchReportParam") {
+					builds = true
 				}
 			}
 			return true
 		})
-		r.Check(okFlow, "C02.fail", core.ShortKey(rf.Obj)+" : Status <- mapping(flag)", w.Pos(rf.Decl.Pos()), "the reported status is the mapping of the caller's flag", "BranchReportParam.Status is not derived from the success flag through the status mapping")
+		if flag == nil || !builds {
+			continue
+		}
+		a.reportFns = append(a.reportFns, f)
+	}
+	if len(a.reportFns) == 0 {
+		r.Anchor("C02.fail", nil, "function with a success flag that builds the BranchReportParam of the phase-one report")
+		return
+	}
+	for _, rf := range dedupFns(a.reportFns) {
+		r.Fn(rf)
+		info := rf.Pkg.TypesInfo
+		var flag types.Object
+		for _, p := range paramObjs(rf) {
+			if b, ok := p.Type().Underlying().(*types.Basic); ok && b.Kind() == types.Bool {
+				flag = p
+			}
+		}
+		for _, v := range []struct {
+			val  bool
+			want string
+		}{{true, "BranchStatusPhaseoneDone"}, {false, "BranchStatusPhaseoneFailed"}} {
+			sp := &flow.Spec{W: w, Depth: 0, Classify: func(pkg *packages.Package, call *ast.CallExpr, callee *types.Func) []flow.Tag {
+				if isBranchReport(w, callee) {
+					return []flow.Tag{"report"}
+				}
+				return nil
+			}}
+			// the status written into the request: `Status: X` in the literal, `req.Status = X` later
+			setStatus := func(st *flow.State, x ast.Expr) {
+				name := "?"
+				if c := core.ConstObj(info, x); c != nil {
+					name = c.Name()
+				} else if o := core.ObjOf(info, x); o != nil {
+					if c := st.Eq[o]; c != nil {
+						name = c.Name()
+					}
+				}
+				for t := range st.Must {
+					if strings.HasPrefix(t, "status:") {
+						delete(st.Must, t)
+					}
+				}
+				st.Must["status:"+name] = true
+				st.May["status:"+name] = true
+			}
+			sp.Effect = func(pkg *packages.Package, n ast.Node, st *flow.State) {
+				if pkg != rf.Pkg {
+					return
+				}
+				ast.Inspect(n, func(m ast.Node) bool {
+					switch x := m.(type) {
+					case *ast.FuncLit:
+						return false
+					case *ast.CompositeLit:
+						if t := info.TypeOf(x); t != nil && strings.HasSuffix(t.String(), "BranchReportParam") {
+							if sv := litField(x, "Status"); sv != nil {
+								setStatus(st, sv)
+							}
+						}
+					case *ast.AssignStmt:
+						for i, l := range x.Lhs {
+							if sel, ok := ast.Unparen(l).(*ast.SelectorExpr); ok && sel.Sel.Name == "Status" && i < len(x.Rhs) {
+								if t := info.TypeOf(sel.X); t != nil && strings.HasSuffix(t.String(), "BranchReportParam") {
+									setStatus(st, x.Rhs[i])
+								}
+							}
+						}
+					}
+					return true
+				})
+			}
+			val := v.val
+			res := sp.AnalyzeSeed(rf, func(st *flow.State) { st.SetBool(flag, val) })
+			n := 0
+			for _, cp := range res.Calls {
+				if !inSet("report", cp.Tags...) {
+					continue
+				}
+				n++
+				r.Sites++
+				got := "nothing"
+				for _, t := range cp.Before.MustTags() {
+					if strings.HasPrefix(t, "status:") {
+						got = strings.TrimPrefix(t, "status:")
+					}
+				}
+				r.Check(cp.Before.Has("status:"+v.want), "C02.fail", core.ShortKey(rf.Obj)+" success="+fmt.Sprint(v.val)+" reports "+v.want, w.Pos(cp.Call.Pos()), "flag "+fmt.Sprint(v.val)+" -> "+v.want,
+					"called with success="+fmt.Sprint(v.val)+" the report carries "+got+", not "+v.want+": the coordinator learns the wrong outcome of phase one")
+			}
+			if n == 0 {
+				r.Bad("C02.fail", core.ShortKey(rf.Obj)+" success="+fmt.Sprint(v.val)+" reports "+v.want, w.Pos(rf.Decl.Pos()), "no BranchReport call is reached with success="+fmt.Sprint(v.val))
+			}
+		}
 	}
 }
 
